@@ -60,7 +60,8 @@ class TestSpec:
              `factors` is given, in which case every factor is enumerated)
     """
 
-    def __init__(self, name, gen, body, n, factors=None, tape=1024, show=None, fuzz=None):
+    def __init__(self, name, gen, body, n, factors=None, tape=1024, show=None, fuzz=None, machine=None):
+        self.machine = machine  # None or callable(seed, n, record): a Hypothesis RuleBasedStateMachine driver
         self.fuzz = fuzz  # None or {'thorough': libFuzzer runs per process} (atheris layer)
         self.name = name
         self.gen = gen
@@ -217,6 +218,21 @@ def _worker(args):
     n_total = test.n[tier]
     factors = test.factors if test.factors is not None else [None]
     t0 = time.time()
+    if test.machine is not None:
+        # stateful: the machine executes histories step by step and hands every finished
+        # history (as a program-as-data case of this test) to the collector
+        n = max(1, n_total // nshards)
+        s = derive_seed(base_seed, test.name, "machine", shard)
+        origin = {"factor": 0, "shard": shard, "seed": s, "n": n, "machine": True}
+
+        def record(case, out):
+            col.record(test, case, out, origin, None)
+
+        try:
+            test.machine(s, n, record)
+        except Exception:
+            col.harness_errors.append(traceback.format_exc()[-3000:])
+        return col
     for fi, factor in enumerate(factors):
         if test.factors is not None:
             # factors are enumerated exhaustively; every shard draws its own share of
